@@ -28,9 +28,22 @@ FREQ_SINGLE = ["1/1", "2/1", "3/1", "3/2", "2/3", "1/2"]
 DURS = ["0/1", "0/1", "1/2", "1/3", "1/1", "2/3", "1/6", "3/2", "1/4", "2/1", "5/6", "1/1"]
 
 
-def gen_step(rng, two, nsubs, toplevel, sub_index, style):
+def frac(fr):
+    return f"{fr.numerator}/{fr.denominator}"
+
+
+def gen_step(rng, two, nsubs, toplevel, sub_index, style, nextra=0, periods=()):
     r = rng.random()
-    clk = lambda: rng.choice("01") if two else rng.choice("0001")
+    real = lambda: rng.choice("01") if two else rng.choice("0001")
+    # clocks 2.. drive no clocked node (WaitClock takes the "clock not part of the simulation" branch)
+    clk = lambda: (str(2 + rng.randrange(nextra)) if nextra and rng.random() < 0.45 else real())
+    if style in ("offtick", "hop"):
+        # waits issued from off-tick instants: after k/n of a period of some clock, or after a tick of another clock
+        if r < (0.45 if style == "offtick" else 0.75):
+            return "K" + clk() + rng.choice("BDA")
+        if r < 0.70 and periods:
+            per = rng.choice(periods)
+            return "T" + frac(per * rng.choice([Fr(1, 4), Fr(2, 3), Fr(1, 2), Fr(1, 3), Fr(3, 4), Fr(5, 4), Fr(1, 1), Fr(1, 6)]))
     if style == "sync" and r < 0.55:
         return "K" + clk() + rng.choice("BBDDA")
     if r < 0.32:
@@ -55,9 +68,12 @@ def gen_step(rng, two, nsubs, toplevel, sub_index, style):
     return "W0=" + str(rng.randrange(256))
 
 
+XMULT = [Fr(1), Fr(1), Fr(3, 4), Fr(1, 2), Fr(2), Fr(3, 2), Fr(2, 3), Fr(4, 3)]
+
+
 def gen_case(rng, cid):
     two = rng.random() < 0.6
-    style = rng.choice(["mixed", "mixed", "sync", "waitfor"])
+    style = rng.choice(["mixed", "mixed", "sync", "waitfor", "offtick", "offtick", "hop"])
     if two:
         fa, fb = rng.choice(FREQ_PAIRS)
     else:
@@ -65,15 +81,28 @@ def gen_case(rng, cid):
     nprocs = rng.randrange(1, 5)
     nsubs = rng.randrange(0, 4)
     lines = [f"case {cid}", f"clk {fa} {fb}"]
+    # clocks without clocked nodes: root (own frequency) or derived (multiplier); often the SAME tick times as a
+    # clock that drives registers
+    nextra = rng.choice([0, 1, 2, 2]) if style in ("offtick", "hop") else rng.choice([0, 0, 1, 2])
+    freqs = [Fr(fa)] + ([Fr(fb)] if two else [])
+    for _ in range(nextra):
+        par = rng.randrange(len(freqs[:2])) if two else 0
+        m = rng.choice(XMULT)
+        if rng.random() < 0.5:
+            lines.append(f"x {frac(freqs[par] * m)}")
+        else:
+            lines.append(f"y {par} {frac(m)}")
+        freqs.append(freqs[par] * m)
+    periods = tuple(1 / f for f in freqs)
     for _ in range(nprocs):
         n = rng.randrange(2, 9)
-        st = [gen_step(rng, two, nsubs, True, 0, style) for _ in range(n)]
+        st = [gen_step(rng, two, nsubs, True, 0, style, nextra, periods) for _ in range(n)]
         if style == "waitfor":
             st = [("T" + rng.choice(DURS)) if (s[0] == "K" and rng.random() < 0.6) else s for s in st]
         lines.append("p " + " ".join(st))
     for i in range(nsubs):
         n = rng.randrange(1, 5)
-        lines.append("s " + " ".join(gen_step(rng, two, nsubs, False, i, style) for _ in range(n)))
+        lines.append("s " + " ".join(gen_step(rng, two, nsubs, False, i, style, nextra, periods) for _ in range(n)))
     fmax = max(Fr(fa), Fr(fb) if two else Fr(0))
     # keep the number of clock events bounded: about 8..14 half periods of the fastest clock, at least 2 s
     until = max(Fr(2), Fr(rng.randrange(4, 8)) / fmax)
@@ -181,7 +210,10 @@ def vxor(a, b):
 def oracle(case, lines):
     """Reference for the documented rules on one REAL log.  Returns (violations, known, stats).
     Knows nothing about the Coq model: only
-      R1 a process resumed by WaitClock(c, BEFORE|DURING) at t runs before the registers of c advance at t and
+      R1 WaitClock resumes at the next tick k/f of the awaited clock (for a clock without clocked nodes: the least
+         tick strictly after the suspension), in the requested phase; whatever runs in phase BEFORE/DURING of t runs
+         before any clock flank of t is served;
+         a process resumed by WaitClock(c, BEFORE|DURING) at t runs before the registers of c advance at t and
          reads the register values from before the edge; resumed by AFTER it runs afterwards and reads the new ones
       R2 what a register of clock c holds after the edge at t = the last value written to its pin before the edge,
          not counting writes made in phase DURING of that very instant (those are not captured)
@@ -194,10 +226,15 @@ def oracle(case, lines):
     """
     two = None
     f = {}
+    nx = 2
     for l in case:
         t = l.split()
         if t[0] == "clk":
             two = t[2] != "-"; f[0] = Fr(t[1]); f[1] = Fr(t[2]) if two else Fr(t[1])
+        elif t[0] == "x":          # register-less root clock
+            f[nx] = Fr(t[1]); nx += 1
+        elif t[0] == "y":          # register-less clock derived from clock 0 / 1
+            f[nx] = f[int(t[1]) if two else 0] * Fr(t[2]); nx += 1
     viol, known = [], []
     stats = collections.Counter()
     regs = {"RA": None, "RA2": None, "RB": None}
@@ -217,12 +254,16 @@ def oracle(case, lines):
     commit_groups = collections.OrderedDict()
     last_v = {}
     err_expected = False
+    flank_times = set()                  # times at which some clock flank (E line) has been served so far
+    all_edges = [(j, Fr(x.split()[1])) for j, x in enumerate(lines) if x.startswith("E ")]
     for i, l in enumerate(lines):
         t = l.split()
         k = t[0]
         if k == "L":
             tm, ph, mt, ro, pid, what = Fr(t[1]), t[2], int(t[3]), t[4] == "1", int(t[5][1:]), t[6]
             arg = t[7] if len(t) > 7 else ""
+            if ph in "BD" and tm in flank_times:
+                viol.append(dict(rule=f"R1 a process acted in phase {ph} of time {tm} after a clock flank of that time had been served", line=i, text=l))
             if what == "susp":
                 susp[pid] = dict(i=i, what=arg, t=tm, ph=ph, mt=mt, ro=ro)
                 seg_owner.pop(pid, None)
@@ -246,7 +287,26 @@ def oracle(case, lines):
                 stats["wake_" + arg[0]] += 1
                 if s is None or s["what"] != arg:
                     viol.append(dict(rule="wake without matching suspension", line=i, text=l)); continue
-                if arg[0] == "K":
+                if arg[0] == "K" and int(arg[1]) >= 2:
+                    # WaitClock on a clock WITHOUT clocked nodes: an ordinary event at the next tick strictly after the
+                    # suspension, (floor(t*f)+1)/f, in the requested phase
+                    c = int(arg[1]); aph = arg[2]
+                    stats["wake_Kx" + aph] += 1
+                    expect = (int(s["t"] * f[c]) + 1) / f[c]
+                    if (s["t"] * f[c]).denominator != 1:
+                        stats["wake_Kx_issued_off_tick"] += 1
+                    if tm != expect:
+                        viol.append(dict(rule=f"R1 WaitClock on a register-less clock of frequency {f[c]} suspended at {s['t']} resumed at {tm}, "
+                                              f"next tick is {expect}", line=i, text=l, expected=str(expect), observed=str(tm)))
+                    if ph != aph:
+                        viol.append(dict(rule=f"R1 process waiting for phase {aph} resumed in phase {ph}", line=i, text=l))
+                    same_time = [j for (j, tt) in all_edges if tt == tm]
+                    if same_time:
+                        stats["wake_Kx_at_instant_with_register_clock_flank"] += 1
+                    if aph == "A" and any(j > i for j in same_time):
+                        viol.append(dict(rule="R1 AFTER-phase process (register-less clock) resumed before a clock flank of the same instant", line=i, text=l))
+                    groups.setdefault((tm, ph, mt), []).append((i, s["i"], pid, arg))
+                elif arg[0] == "K":
                     c = int(arg[1]) if two else 0
                     aph = arg[2]
                     stats["wake_K" + aph] += 1
@@ -320,6 +380,7 @@ def oracle(case, lines):
                     stats["writes_" + ph] += 1
         elif k == "E":
             tm, c, edge = Fr(t[1]), int(t[2]), t[3]
+            flank_times.add(tm)
             if edge != "r":
                 continue
             stats["activations"] += 1
@@ -372,7 +433,8 @@ def oracle(case, lines):
             stats["same_instant_wakes"] += len(g)
         for (a, b) in zip(g, g[1:]):
             if not a[1] < b[1]:
-                cross = key[1] == "B" and a[3][0] == "K" and b[3][0] == "K" and a[3][1] != b[3][1] and two
+                eff = lambda w: w[1] if (two or int(w[1]) >= 2) else "0"
+                cross = key[1] == "B" and a[3][0] == "K" and b[3][0] == "K" and eff(a[3]) != eff(b[3])
                 d = dict(rule="R4 same-instant FIFO: resumed in a different order than suspended", instant=[str(key[0]), key[1], key[2]],
                          first_resumed=f"p{a[2]} {a[3]} (suspended at line {a[1]})", then=f"p{b[2]} {b[3]} (suspended at line {b[1]})",
                          line=b[0], text=lines[b[0]])
@@ -398,6 +460,12 @@ def classify(case, lines, stats_c):
         stats_c["step_" + st] += 1
     for ph in re.findall(r"\bK[01]([BDA])", txt):
         stats_c["waitclk_" + ph] += 1
+    for ph in re.findall(r"\bK[2-9]([BDA])", txt):
+        stats_c["waitclk_registerless_" + ph] += 1
+    if any(l.startswith(("x ", "y ")) for l in case):
+        stats_c["cases_with_registerless_clock"] += 1
+    stats_c["registerless_root"] += sum(1 for l in case if l.startswith("x "))
+    stats_c["registerless_derived"] += sum(1 for l in case if l.startswith("y "))
 
 
 def nontrivial(lines):
